@@ -105,6 +105,56 @@ package iparser
 //@   ensures [C02] attached: old(len(g.ParseErrors)) == 0 ==> statement.ForRangeStmt == forRangeStmt
 //@   ensures [C20] positioned: old(len(g.ParseErrors)) == 0 ==> forRangeStmt.LineNum == tokLine(startTok(ctx.BaseParserRuleContext)) && forRangeStmt.Code == ctxText(ctx.BaseParserRuleContext)
 
+// rule header (C01 metadata, C04 salience, C08 rule identity): name, description and salience of the header reach the
+// rule entity on top of the stack and the listener's own header fields; a rule is registered under its own name, and a
+// name that is already registered is refused with an error (C10: duplicates are rejected, nothing is replaced).
+//@ func (*GengineParserListener).ExitRuleName
+//@   props C01 C08
+//@   requires g != nil && ctx != nil
+//@   ensures [C01,C08] named: old(len(g.ParseErrors)) == 0 && len(strTrimF(ctxText(ctx.BaseParserRuleContext), "\"")) > 0 ==> entity.RuleName == strTrimF(ctxText(ctx.BaseParserRuleContext), "\"") && g.ruleName == entity.RuleName && len(g.ParseErrors) == 0
+//@   ensures [C08,C10] emptyname: old(len(g.ParseErrors)) == 0 && len(strTrimF(ctxText(ctx.BaseParserRuleContext), "\"")) == 0 ==> len(g.ParseErrors) > 0
+//@   modifies g.ruleName, base.RuleEntity.RuleName, g.ParseErrors
+
+//@ func (*GengineParserListener).ExitRuleDescription
+//@   props C01 C16
+//@   requires g != nil && ctx != nil
+//@   ensures [C01,C16] described: old(len(g.ParseErrors)) == 0 ==> entity.RuleDescription == strTrimF(ctxText(ctx.BaseParserRuleContext), "\"") && g.ruleDescription == entity.RuleDescription
+//@   modifies g.ruleDescription, base.RuleEntity.RuleDescription
+
+//@ func (*GengineParserListener).ExitSalience
+//@   props C01
+//@   arith int unchecked
+//@   requires g != nil && ctx != nil
+//@   ensures [C01] ownsalience: old(len(g.ParseErrors)) == 0 && len(g.ParseErrors) == 0 ==> g.salience == parseIntF(strReplaceAll(strToLowerF(ctxText(ctx.BaseParserRuleContext)), "salience", ""), 10, 64)
+//@   modifies g.salience, g.ParseErrors
+
+//@ func (*GengineParserListener).ExitRuleEntity
+//@   props C08 C10
+//@   requires g != nil && g.KnowledgeContext != nil && g.KnowledgeContext.RuleEntities != nil
+//@   ensures [C08] registered: old(len(g.ParseErrors)) == 0 && !old(entity.RuleName in g.KnowledgeContext.RuleEntities) ==> g.KnowledgeContext.RuleEntities[entity.RuleName] == entity && len(g.ParseErrors) == 0
+//@   ensures [C08,C10] duplicate: old(len(g.ParseErrors)) == 0 && old(entity.RuleName in g.KnowledgeContext.RuleEntities) ==> len(g.ParseErrors) > 0 && g.KnowledgeContext.RuleEntities[entity.RuleName] == old(g.KnowledgeContext.RuleEntities[entity.RuleName])
+//@   modifies mapcontents(g.KnowledgeContext.RuleEntities), g.ParseErrors
+
+//@ func (*GengineParserListener).ExitAtId
+//@   props C01
+//@   arith int unchecked
+//@   requires g != nil
+//@   ghost handed int = 0
+//@   oncall base.AtIdHolder.AcceptId
+//@     assert [C01] ownid: handed == 0 && (arg0 == 0 || arg0 == parseIntF(strTrimF(g.ruleName, " "), 10, 64))
+//@     after handed := handed + 1
+//@   ensures [C01] once: old(len(g.ParseErrors)) == 0 ==> handed == 1
+
+// call arguments (C03): the finished argument list is handed to the call node below it, once
+//@ func (*GengineParserListener).ExitFunctionArgs
+//@   props C03
+//@   requires g != nil
+//@   ghost handed int = 0
+//@   oncall base.ArgsHolder.AcceptArgs
+//@     assert [C03] args: handed == 0 && arg0 == expr
+//@     after handed := handed + 1
+//@   ensures [C03] once: old(len(g.ParseErrors)) == 0 ==> handed == 1
+
 // rule metadata (C01, @name / @desc / @sal): the header fields are reset when a rule starts, and a metadata constant
 // receives the listener's current header value. Trusted: the walk order (header before body, rules one after another).
 //@ func (*GengineParserListener).EnterRuleEntity
